@@ -10,11 +10,14 @@
    X_rs i = sum_j X i j, X >= 0; CInv says: C >= 0 and C_rs i = sum_j C i j.
 
    PARTIAL (not theorems, observed per input by harness/props/c12.py): convergence of the iteration,
-   global optimality over all reversible matrices (likelihood is compared with the transpose estimate
-   and sampled reversible competitors), IEEE rounding, the stopping rule on the pseudo log-likelihood.
+   global optimality over all reversible matrices for n >= 3 (likelihood is compared with the transpose
+   estimate and sampled reversible competitors; proved here: first-order conditions, strict
+   coordinate-wise maximality of the full log-likelihood, and global optimality for two states),
+   IEEE rounding.  Round 2 additions start at "ROUND 2" below (Proof/PrinzFixed.v, PrinzMax.v,
+   PrinzLik.v, PrinzStop.v).
    Theorems over R depend on the standard library's axioms of the reals (printed below). *)
 From Coq Require Import List ZArith QArith Qabs Reals.
-From EV Require Import Prinz PrinzGen PrinzProofs PrinzSweep PrinzCert.
+From EV Require Import Prinz PrinzGen PrinzProofs PrinzSweep PrinzCert PrinzFixed PrinzMax PrinzLik.
 Import ListNotations.
 Open Scope R_scope.
 
@@ -211,3 +214,198 @@ Example c12_example_certificate :
   = true.
 Proof. vm_compute. reflexivity. Qed.
 Print Assumptions c12_example_certificate.
+
+
+(* ====================================================================== ROUND 2 *)
+
+(* ---- the bookkeeping lemma that was missing: each entry of X is written exactly once per sweep, so a
+        sweep whose result has the same X (on the n x n block) made every single write the identity,
+        every intermediate state equal to the initial one, and hence every coordinate update computed
+        on the initial state returns the entry already there.  (And conversely.) *)
+Theorem c12_sweep_unchanged_is_fixed : forall n C Crs s,
+  Inv n s ->
+  (forall i j, (i < n)%nat -> (j < n)%nat -> fst (py_sweep ROps C Crs n s) i j = fst s i j) ->
+  is_fixed n C Crs s.
+Proof. exact sweep_unchanged_is_fixed. Qed.
+Print Assumptions c12_sweep_unchanged_is_fixed.
+
+Theorem c12_fixed_sweep_unchanged : forall n C Crs s,
+  Inv n s -> is_fixed n C Crs s ->
+  (forall a b, fst (py_sweep ROps C Crs n s) a b = fst s a b) /\
+  (forall a, snd (py_sweep ROps C Crs n s) a = snd s a).
+Proof. exact fixed_sweep_unchanged. Qed.
+Print Assumptions c12_fixed_sweep_unchanged.
+
+(* ---- fixed_point_self_consistent, FULL statement: a sweep that changes nothing implies the Prinz
+        self-consistency equations x_ij (c_i/x_i + c_j/x_j) = c_ij + c_ji for all i, j < n.
+        Hypotheses on C as in the partial theorem: every state has a count to another state, and
+        a <> 0 for every pair. *)
+Theorem c12_fixed_point_self_consistent : forall n C Crs s,
+  CInv n C Crs -> Inv n s -> (forall i, (i < n)%nat -> 0 < snd s i) ->
+  (forall i, (i < n)%nat -> 0 < Crs i - C i i) ->
+  (forall i j, (i < j < n)%nat -> qa (C i j) (C j i) (Crs i) (Crs j) <> 0) ->
+  (forall i j, (i < n)%nat -> (j < n)%nat -> fst (py_sweep ROps C Crs n s) i j = fst s i j) ->
+  forall i j, (i < n)%nat -> (j < n)%nat ->
+    fst s i j * (Crs i / snd s i + Crs j / snd s j) = C i j + C j i.
+Proof. exact sweep_fixed_self_consistent. Qed.
+Print Assumptions c12_fixed_point_self_consistent.
+
+(* ---- the a = 0 case.  With C >= 0, a = (c_i - c_ij) + (c_j - c_ji) = 0 says that i only jumps to j and
+        j only to i; in a strongly connected graph that is: n = 2 with empty diagonal.  The code then
+        leaves x_ij alone, and the equations hold all the same (the diagonal updates force
+        x_00 = x_11 = 0, so x_0 = x_01 = x_1).  No hypothesis on a: *)
+Theorem c12_fixed_point_self_consistent_two_state : forall C Crs s,
+  CInv 2 C Crs -> Inv 2 s -> (forall i, (i < 2)%nat -> 0 < snd s i) ->
+  (forall i, (i < 2)%nat -> 0 < Crs i - C i i) ->
+  is_fixed 2 C Crs s ->
+  forall i j, (i < 2)%nat -> (j < 2)%nat ->
+    fst s i j * (Crs i / snd s i + Crs j / snd s j) = C i j + C j i.
+Proof. exact two_state_self_consistent. Qed.
+Print Assumptions c12_fixed_point_self_consistent_two_state.
+
+(* ---- the property's own quantifier: for EVERY non-negative count matrix with a strongly connected
+        transition graph (any n >= 1: n = 1, the a = 0 case n = 2, and n >= 3 where strong connectivity
+        gives a > 0 for every pair and a count leaving every state), a sweep that changes nothing
+        implies the Prinz equations.  reach n C i j: a path of positive counts from i to j. *)
+Theorem c12_fixed_point_self_consistent_strongly_connected : forall n C Crs s,
+  CInv n C Crs ->
+  (forall i j, (i < n)%nat -> (j < n)%nat -> reach n C i j) ->
+  Inv n s -> (forall i, (i < n)%nat -> 0 < snd s i) ->
+  (forall i j, (i < n)%nat -> (j < n)%nat -> fst (py_sweep ROps C Crs n s) i j = fst s i j) ->
+  forall i j, (i < n)%nat -> (j < n)%nat ->
+    fst s i j * (Crs i / snd s i + Crs j / snd s j) = C i j + C j i.
+Proof. exact sweep_fixed_self_consistent_sc. Qed.
+Print Assumptions c12_fixed_point_self_consistent_strongly_connected.
+
+(* what strong connectivity gives (used above) *)
+Theorem c12_strongly_connected_pair_coefficient : forall n C Crs,
+  CInv n C Crs -> strongly_connected n C -> (3 <= n)%nat ->
+  forall i j, (i < j < n)%nat -> qa (C i j) (C j i) (Crs i) (Crs j) <> 0.
+Proof. exact sc_pair_out_count. Qed.
+Print Assumptions c12_strongly_connected_pair_coefficient.
+
+(* ---- coordinate-wise MAXIMUM (before: only "the unique positive stationary point").
+        The coordinate log-likelihood is not concave in general: *)
+Theorem c12_coordinate_loglik_not_concave :
+  exists s ci cj ri rj v1 v2,
+    0 < s /\ 0 < ci + cj - s /\ 0 < ri /\ 0 < rj /\ 0 < v1 < v2 /\
+    dell_off s ci cj ri rj v1 < dell_off s ci cj ri rj v2.
+Proof. exact coordinate_loglik_not_concave. Qed.
+Print Assumptions c12_coordinate_loglik_not_concave.
+
+(* ... but its derivative is positive below the stored value and negative above it ... *)
+Theorem c12_offdiag_derivative_sign : forall cij cji ci cj xi xj xij xji : R,
+  0 <= cij + cji -> 0 <= xi - xij -> 0 <= xj - xij -> qa cij cji ci cj > 0 ->
+  forall w : R,
+  let v := fst (fst (fst (py_offdiag ROps cij cji ci cj xi xj xij xji))) in
+  0 < v -> 0 < w ->
+  (w < v -> 0 < dell_off (cij + cji) ci cj (xi - xij) (xj - xij) w) /\
+  (v < w -> dell_off (cij + cji) ci cj (xi - xij) (xj - xij) w < 0).
+Proof. exact offdiag_derivative_sign. Qed.
+Print Assumptions c12_offdiag_derivative_sign.
+
+(* ... hence (mean value theorem) the stored value is the strict global maximum of the coordinate
+   log-likelihood over all positive values of x_ij = x_ji *)
+Theorem c12_offdiag_is_coordinate_maximum : forall cij cji ci cj xi xj xij xji : R,
+  0 <= cij + cji -> 0 <= xi - xij -> 0 <= xj - xij -> qa cij cji ci cj > 0 ->
+  let v := fst (fst (fst (py_offdiag ROps cij cji ci cj xi xj xij xji))) in
+  0 < v -> forall w : R, 0 < w -> w <> v ->
+  ell_off (cij + cji) ci cj (xi - xij) (xj - xij) w < ell_off (cij + cji) ci cj (xi - xij) (xj - xij) v.
+Proof. exact offdiag_is_coordinate_maximum. Qed.
+Print Assumptions c12_offdiag_is_coordinate_maximum.
+
+Theorem c12_diag_is_coordinate_maximum : forall cii ci xi xii : R,
+  0 <= cii -> 0 <= xi - xii -> 0 < ci - cii ->
+  let r := xi - xii in
+  let u := fst (py_diag ROps cii ci xi xii) in
+  0 < u -> forall w : R, 0 < w -> w <> u -> ell_diag cii ci r w < ell_diag cii ci r u.
+Proof. exact diag_is_coordinate_maximum. Qed.
+Print Assumptions c12_diag_is_coordinate_maximum.
+
+(* ---- the coordinate functions ARE the full log-likelihood restricted to one coordinate:
+        loglikT n C X = sum_kl c_kl ln (x_kl / x_k) is the log-likelihood of T = X / rowsum X on C,
+        loglikS its split form sum_kl c_kl ln x_kl - sum_k c_k ln x_k; setting the pair x_ij = x_ji of a
+        symmetric X to v changes loglikS by ell_off(v) - ell_off(x_ij). *)
+Theorem c12_loglik_split : forall n C Crs X,
+  CInv n C Crs -> supported n C X -> loglikT n C X = loglikS n C Crs X.
+Proof. exact loglik_split. Qed.
+Print Assumptions c12_loglik_split.
+
+Theorem c12_loglik_pair_coordinate : forall n C Crs X i j v,
+  (i < n)%nat -> (j < n)%nat -> i <> j -> X j i = X i j ->
+  let s := C i j + C j i in
+  let ri := sumR n (X i) - X i j in let rj := sumR n (X j) - X i j in
+  loglikS n C Crs (pair_set X i j v) - loglikS n C Crs X =
+  ell_off s (Crs i) (Crs j) ri rj v - ell_off s (Crs i) (Crs j) ri rj (X i j).
+Proof. exact loglik_pair_coordinate. Qed.
+Print Assumptions c12_loglik_pair_coordinate.
+
+Theorem c12_loglik_diag_coordinate : forall n C Crs X i u,
+  (i < n)%nat ->
+  let r := sumR n (X i) - X i i in
+  loglikS n C Crs (diag_set X i u) - loglikS n C Crs X =
+  ell_diag (C i i) (Crs i) r u - ell_diag (C i i) (Crs i) r (X i i).
+Proof. exact loglik_diag_coordinate. Qed.
+Print Assumptions c12_loglik_diag_coordinate.
+
+(* ---- first-order optimality: where the Prinz equations hold, ALL partial derivatives of the full
+        log-likelihood along the coordinates of a symmetric X (pairs x_ij = x_ji moving together, and
+        diagonal entries) vanish.  Coordinates with x_ij = 0 lie on the boundary and are excluded.
+        This is stationarity, NOT global optimality. *)
+Theorem c12_loglik_stationary_at_prinz_solution : forall n C Crs s,
+  Inv n s -> (forall i, (i < n)%nat -> 0 < snd s i) ->
+  (forall i j, (i < n)%nat -> (j < n)%nat ->
+     fst s i j * (Crs i / snd s i + Crs j / snd s j) = C i j + C j i) ->
+  (forall i j, (i < n)%nat -> (j < n)%nat -> i <> j -> 0 < fst s i j ->
+     derivable_pt_lim (fun v => loglikS n C Crs (pair_set (fst s) i j v)) (fst s i j) 0) /\
+  (forall i, (i < n)%nat -> 0 < fst s i i ->
+     derivable_pt_lim (fun u => loglikS n C Crs (diag_set (fst s) i u)) (fst s i i) 0).
+Proof. exact loglik_stationary. Qed.
+Print Assumptions c12_loglik_stationary_at_prinz_solution.
+
+(* ---- a fixed point is a strict COORDINATE-WISE maximum of the log-likelihood of T = X / rowsum X:
+        replacing one symmetric pair, or one diagonal entry, by any other positive value strictly
+        lowers sum_kl c_kl ln T_kl.  (Not a global maximum over all symmetric X: that is not proved
+        for n >= 3.) *)
+Theorem c12_fixed_point_coordinatewise_maximum : forall n C Crs s,
+  CInv n C Crs -> Inv n s -> (forall i, (i < n)%nat -> 0 < snd s i) ->
+  is_fixed n C Crs s -> prinz_eqs n C Crs s ->
+  (forall i j, (i < j < n)%nat -> qa (C i j) (C j i) (Crs i) (Crs j) <> 0 -> 0 < fst s i j ->
+     forall w, 0 < w -> w <> fst s i j ->
+     loglikT n C (pair_set (fst s) i j w) < loglikT n C (fst s)) /\
+  (forall i, (i < n)%nat -> 0 < Crs i - C i i -> 0 < fst s i i ->
+     forall w, 0 < w -> w <> fst s i i ->
+     loglikT n C (diag_set (fst s) i w) < loglikT n C (fst s)).
+Proof. exact fixed_point_coordinatewise_maximum_T. Qed.
+Print Assumptions c12_fixed_point_coordinatewise_maximum.
+
+(* ---- two states: GLOBAL optimality.  At a solution of the Prinz equations T = X / rowsum X is the
+        row-normalised count matrix, and by Gibbs' inequality no row-stochastic matrix X / rowsum X
+        (reversible or not; every 2-state chain is reversible) has a larger log-likelihood. *)
+Theorem c12_two_state_global_maximum : forall C Crs s,
+  CInv 2 C Crs -> (forall k, (k < 2)%nat -> 0 < Crs k) ->
+  Inv 2 s -> (forall i, (i < 2)%nat -> 0 < snd s i) -> prinz_eqs 2 C Crs s ->
+  forall X, (forall k l, (k < 2)%nat -> (l < 2)%nat -> 0 <= X k l) -> supported 2 C X ->
+  loglikT 2 C X <= loglikT 2 C (fst s).
+Proof. exact two_state_global_maximum. Qed.
+Print Assumptions c12_two_state_global_maximum.
+
+(* Gibbs for any n: the row-normalised counts bound the log-likelihood of every row-stochastic matrix
+   (the reversible optimum lies below this bound and, for n >= 3, generally strictly below) *)
+Theorem c12_loglik_le_counts : forall n C Crs X,
+  CInv n C Crs -> (forall k, (k < n)%nat -> 0 < Crs k) ->
+  (forall k l, (k < n)%nat -> (l < n)%nat -> 0 <= X k l) -> supported n C X ->
+  loglikT n C X <= sumR n (fun k => sumR n (fun l => C k l * ln (C k l / Crs k))).
+Proof. exact loglikT_le_counts. Qed.
+Print Assumptions c12_loglik_le_counts.
+
+(* ---- non-vacuity for round 2: C = [[0,1],[1,0]] is strongly connected, has a = 0, and its initial
+        state X = C + C^T is left unchanged by a sweep *)
+Example c12_example_a_eq_0 :
+  let C := fun (i j : nat) => if Nat.eqb i j then 0 else 1 in let Crs := fun (_ : nat) => 1 in
+  let s : state R := init_state ROps 2 C in
+  CInv 2 C Crs /\ strongly_connected 2 C /\ Inv 2 s /\ (forall i, (i < 2)%nat -> 0 < snd s i) /\
+  qa (C 0 1)%nat (C 1 0)%nat (Crs 0%nat) (Crs 1%nat) = 0 /\
+  sweep_unchanged 2 C Crs s.
+Proof. exact a0_example. Qed.
+Print Assumptions c12_example_a_eq_0.
